@@ -6,6 +6,7 @@ Property theorems only; helper lemmas are in `Proofs/Framing.lean`.
 -/
 import DosModel.Proofs.Framing
 import DosModel.Proofs.FramingInterleave
+import DosModel.Proofs.FramingEof
 import DosModel.Gen.P2PConsts
 import DosModel.Gen.P2PFraming
 
@@ -195,6 +196,68 @@ theorem interleaving_independent (L : Nat) (ca cb : List Bytes) :
   rw [runInter_split]
   exact ⟨ha _ h1, hb _ h2⟩
 
+/-! ### a transport whose last `Read` returns bytes AND the error (`n > 0, io.EOF`)
+
+`readFrameE` is `readFrom` over such a transport (allowed by the `io.Reader` contract; Go's TCP
+connections report the error in a separate `Read`). The code drops the bytes of a failing `Read`. -/
+
+/-- **8a. bytes that arrive together with the error never become a short or padded payload.**
+Whatever `readFrom` accepts on such a transport it would have accepted, with the same rest, had the
+error come in a separate `Read`; so by 4c the payload has exactly the announced length and is exactly
+the announced bytes of the stream. -/
+theorem eofdata_ok_is_plain_ok (L : Nat) (cs : List Bytes) (b : Bytes)
+    (h : (readFrameE L cs).out = .ok b) :
+    (readFrame L cs).out = .ok b ∧ (readFrame L cs).rest = (readFrameE L cs).rest
+      ∧ b.length = beNat (cs.flatten.take 4) ∧ b = (cs.flatten.drop 4).take b.length := by
+  have e := readFrameE_ok_imp L cs b h
+  have h' : (readFrame L cs).out = .ok b := by rw [e]; exact h
+  have := ok_has_announced_length L cs b h'
+  exact ⟨h', by rw [e], this.1, this.2.2.2⟩
+
+/-- **8b. a stream that ends inside the payload is an error on such a transport too** — in
+particular when the truncated tail arrives in the very `Read` that reports the end of the stream. -/
+theorem eofdata_truncated_errors (L : Nat) (cs : List Bytes) (hdr body : Bytes)
+    (hh : hdr.length = 4) (hcs : cs.flatten = hdr ++ body) (hshort : body.length < beNat hdr) :
+    ∃ e, (readFrameE L cs).out = .error e := by
+  cases hr : (readFrameE L cs).out with
+  | error e => exact ⟨e, rfl⟩
+  | ok b =>
+    obtain ⟨e, he⟩ := truncated_body_errors L cs hdr body hh hcs hshort
+    rw [(eofdata_ok_is_plain_ok L cs b hr).1] at he
+    cases he
+
+/-- **8c. round trip and no bleed when more data follows the frame** (every frame but the last one
+before the stream ends), under every chunking. -/
+theorem eofdata_roundtrip_when_more_follows (L : Nat) (hL : L < 2 ^ 32) (p rest : Bytes)
+    (hp1 : 1 ≤ p.length) (hpL : p.length ≤ L) (hrest : rest ≠ []) (cs : List Bytes)
+    (hcs : cs.flatten = natBE 4 p.length ++ p ++ rest) :
+    (readFrameE L cs).out = .ok p ∧ (readFrameE L cs).rest.flatten = rest := by
+  have hlen : (natBE 4 p.length).length = 4 := natBE_length 4 _
+  have htake : cs.flatten.take 4 = natBE 4 p.length := by
+    rw [hcs, List.append_assoc, List.take_append_of_le_length (by omega)]
+    exact List.take_of_length_le (by omega)
+  have hsz : beNat (natBE 4 p.length) = p.length := beNat_natBE4 _ (by omega)
+  have hr : 0 < rest.length := List.length_pos_iff.mpr hrest
+  have e := readFrameE_eq_of_more L cs (by
+    rw [htake, hsz, hcs]; simp only [List.length_append, hlen]; omega)
+  rw [e]
+  have := roundtrip_any_chunking L hL p rest hp1 hpL cs hcs
+  exact ⟨this.1, this.2.1⟩
+
+/-- **8d. (the code as it is) the last frame before the end of such a stream is rejected**: its last
+byte arrives with the error and is dropped. Not a short or padded payload, but not a round trip
+either; Go's TCP connections never pair data with the error, so the p2p layer does not meet this. -/
+theorem eofdata_last_frame_rejected (L : Nat) (hL : L < 2 ^ 32) (p : Bytes)
+    (hp1 : 1 ≤ p.length) (cs : List Bytes) (hcs : cs.flatten = natBE 4 p.length ++ p) (hpL : p.length ≤ L) :
+    ∃ e, (readFrameE L cs).out = .error e := by
+  have hlen : (natBE 4 p.length).length = 4 := natBE_length 4 _
+  have htake : cs.flatten.take 4 = natBE 4 p.length := by
+    rw [hcs, List.take_append_of_le_length (by omega)]
+    exact List.take_of_length_le (by omega)
+  have hsz : beNat (natBE 4 p.length) = p.length := beNat_natBE4 _ (by omega)
+  exact readFrameE_last_frame L cs (by rw [hcs]; simp only [List.length_append, hlen]; omega)
+    (by rw [htake, hsz, hcs]; simp only [List.length_append, hlen]; omega)
+
 /-- the statement of the property at the code's own limit -/
 theorem c15_at_code_limit (p rest : Bytes) (hp1 : 1 ≤ p.length) (hpL : p.length ≤ 2 ^ 20)
     (cs : List Bytes) (hcs : cs.flatten = natBE 4 p.length ++ p ++ rest) :
@@ -214,5 +277,10 @@ example : (readerResult (runInter 1048576 [true, false, false, true, true, false
 example : writeFrameTo 1048576 [7, 9] [1, 3] = some [[0], [0, 0, 2], [7, 9]] := rfl
 example : (readFrame 1048576 [[0, 0, 0], [0, 1, 1]]).out = .error .size := rfl
 example : (readFrame 1048576 [[0, 0, 0, 3], [1, 1]]).out = .error .body := rfl
+/-- data-with-error transport: the truncated tail [1, 1] arrives with the EOF and is NOT padded to 3 bytes -/
+example : (readFrameE 1048576 [[0, 0, 0, 3], [1, 1]]).out = .error .body := rfl
+example : (readFrameE 1048576 [[0, 0], [0, 2, 7], [9, 5], [6]]).out = .ok [7, 9] ∧
+    (readFrameE 1048576 [[0, 0], [0, 2, 7], [9, 5], [6]]).rest.flatten = [5, 6] := ⟨rfl, rfl⟩
+example : (readFrameE 1048576 [[0, 0, 0, 2, 7], [9]]).out = .error .body := rfl
 
 end Dos.Props.C15
